@@ -109,7 +109,15 @@ def to_obs(pid, grouped, audit, side_envs, rule_of):
                 obs.append(K.Ob(k, True, "proven on %d visits" % o["visits"], rule, site))
                 continue
             # an entry may be restricted to the groups (configurations) whose name contains e["only"]
-            ents = [e for e in audit.get(norm_key(k), []) if pid in e.get("props", [pid]) and (not e.get("only") or e["only"] in g)]
+            cands = list(audit.get(norm_key(k), []))
+            if not cands:
+                # an entry whose key ends with `*` matches every obligation key with that prefix (used where only the spelling of an
+                # argument may vary, e.g. `to_digit(*c).unwrap()` vs `to_digit(c).unwrap()`)
+                nk = norm_key(k)
+                for wk, es in audit.items():
+                    if wk.endswith("*") and nk.startswith(wk[:-1]):
+                        cands.extend(es)
+            ents = [e for e in cands if pid in e.get("props", [pid]) and (not e.get("only") or e["only"] in g)]
             if ents:
                 e = ents[0]
                 ok = True
